@@ -176,48 +176,167 @@ Proof.
   destruct (rev_find (g7_rev g7_table) 0 (g7_rune s) None) as [x|]; try discriminate. apply N.eqb_eq in H2. subst x. auto.
 Qed.
 
-Definition plain (ss : list N) : Prop := Forall (fun s => s < 128 /\ s <> ESC /\ s <> CR) ss.
-Lemma plain_septets ss : plain ss -> Forall (fun s => s < 128) ss.
-Proof. apply Forall_impl. tauto. Qed.
-
-Lemma ta_runes_plain ss : plain ss -> ta_runes g7_table ss = Ok (map g7_rune ss).
+(* ------------------------------------------------------------------ texts: escape sequences *)
+Lemma text_ind (P : list N -> Prop) :
+  P [] -> (forall s r, s <> ESC -> P r -> P (s :: r)) -> P [ESC] -> (forall x r, P r -> P (ESC :: x :: r)) ->
+  forall l, P l.
 Proof.
-  induction 1 as [|s r [Hs [He Hc]] _ IH]; [reflexivity|]. cbn [ta_runes map].
-  destruct (N.leb_spec s 127); [|lia]. destruct (N.eqb_spec s ESC); [contradiction|]. cbn [andb negb].
-  destruct (g7_table_inv s Hs He) as [-> _]. cbn [obind]. rewrite IH. reflexivity.
+  intros H0 H1 H2 H3.
+  assert (H : forall n l, (List.length l <= n)%nat -> P l).
+  { induction n as [|n IH]; intros l Hl.
+    - destruct l; [exact H0|cbn in Hl; lia].
+    - destruct l as [|s r]; [exact H0|].
+      destruct (N.eq_dec s ESC) as [->|Hs].
+      + destruct r as [|x r']; [exact H2|]. apply H3. apply IH. cbn in Hl. lia.
+      + apply H1; [exact Hs|]. apply IH. cbn in Hl. lia. }
+  intros l. apply (H (List.length l)). lia.
 Qed.
 
-Lemma ta_septets_plain ss : plain ss -> ta_septets g7_table (map g7_rune ss) = Some ss.
+(* the extension table of the running code IS the standard's (GSM 03.38 6.2.1.1), euro sign included *)
+Lemma g7_esc_is_spec : g7_esc g7_table = gsm_extension.
+Proof. reflexivity. Qed.
+Lemma assoc_ext x l : assoc x l = ext_lookup x l.
+Proof. induction l as [|[c r] t IH]; [reflexivity|]. cbn. rewrite IH. reflexivity. Qed.
+
+(* the characters of a text as the running code's tables give them *)
+Fixpoint code_text (ss : list N) : list N :=
+  match ss with
+  | [] => []
+  | s :: r =>
+    if s =? ESC then
+      match r with
+      | [] => []
+      | x :: r' => match ext_lookup x gsm_extension with Some c => c :: code_text r' | None => code_text r' end
+      end
+    else g7_rune s :: code_text r
+  end.
+
+(* every extension rune is absent from the basic table and found back in the extension table *)
+Lemma ext_sweep :
+  forallb (fun e => let '(x, c) := e in
+     (x <? 128) &&
+     match rev_find (g7_rev g7_table) 0 c None with None => true | Some _ => false end &&
+     match esc_find (g7_esc g7_table) c with Some y => y =? x | None => false end) gsm_extension = true.
+Proof. vm_compute. reflexivity. Qed.
+Lemma ext_lookup_in x c : ext_lookup x gsm_extension = Some c -> In (x, c) gsm_extension.
 Proof.
-  induction 1 as [|s r [Hs [He Hc]] _ IH]; [reflexivity|]. cbn [map ta_septets]. rewrite IH.
-  destruct (g7_table_inv s Hs He) as [_ ->]. reflexivity.
+  generalize gsm_extension. induction l as [|[a r] t IH]; cbn; [discriminate|].
+  destruct (N.eqb_spec a x) as [->|_]; [intros E; inversion E; auto|auto].
+Qed.
+Lemma ext_facts x c : ext_lookup x gsm_extension = Some c ->
+  x < 128 /\ rev_find (g7_rev g7_table) 0 c None = None /\ esc_find (g7_esc g7_table) c = Some x.
+Proof.
+  intros E. apply ext_lookup_in in E. pose proof ext_sweep as H. rewrite forallb_forall in H. specialize (H _ E).
+  cbn beta iota in H. apply andb_true_iff in H. destruct H as [H H3]. apply andb_true_iff in H. destruct H as [H1 H2].
+  destruct (rev_find (g7_rev g7_table) 0 c None); [discriminate|].
+  destruct (esc_find (g7_esc g7_table) c) as [y|]; [|discriminate]. apply N.eqb_eq in H3. subst y.
+  apply N.ltb_lt in H1. auto.
 Qed.
 
-Lemma plain_last ss : plain ss -> (last ss 0 =? CR) = false.
+Lemma valid_text_septets ss : valid_text ss = true -> Forall (fun s => s < 128) ss.
 Proof.
-  induction 1 as [|s r [Hs [He Hc]] Hr IH]; [reflexivity|].
-  destruct r as [|s' r']; [cbn; destruct (N.eqb_spec s CR); [contradiction|reflexivity]|exact IH].
+  induction ss as [|s r Hs IH| |x r IH] using text_ind; intros H.
+  - constructor.
+  - cbn [valid_text] in H. change ESCAPE with ESC in H. destruct (N.eqb_spec s ESC); [contradiction|].
+    apply andb_true_iff in H. destruct H as [H1 H2]. apply N.ltb_lt in H1. constructor; auto.
+  - discriminate H.
+  - cbn [valid_text] in H. change (ESC =? ESCAPE) with true in H. cbn iota in H.
+    destruct (ext_lookup x gsm_extension) as [c|] eqn:E; [|discriminate].
+    destruct (ext_facts x c E) as [Hx _]. constructor; [unfold ESC; lia|]. constructor; auto.
 Qed.
+
+Lemma ta_runes_text ss : valid_text ss = true -> ta_runes g7_table ss = Ok (code_text ss).
+Proof.
+  induction ss as [|s r Hs IH| |x r IH] using text_ind; intros H.
+  - reflexivity.
+  - cbn [valid_text] in H. change ESCAPE with ESC in H. cbn [ta_runes code_text].
+    destruct (N.eqb_spec s ESC); [contradiction|].
+    apply andb_true_iff in H. destruct H as [H1 H2]. apply N.ltb_lt in H1.
+    destruct (N.leb_spec s 127); [|lia]. cbn [andb negb].
+    destruct (g7_table_inv s H1 Hs) as [-> _]. cbn [obind]. rewrite IH by exact H2. reflexivity.
+  - discriminate H.
+  - cbn [valid_text] in H. change (ESC =? ESCAPE) with true in H. cbn iota in H.
+    destruct (ext_lookup x gsm_extension) as [c|] eqn:E; [|discriminate].
+    cbn [ta_runes code_text]. change (ESC <=? 127) with true. change (ESC =? ESC) with true. cbn [andb negb].
+    rewrite assoc_ext, g7_esc_is_spec, E. rewrite IH by exact H. reflexivity.
+Qed.
+
+Lemma ta_septets_text ss : valid_text ss = true -> ta_septets g7_table (code_text ss) = Some ss.
+Proof.
+  induction ss as [|s r Hs IH| |x r IH] using text_ind; intros H.
+  - reflexivity.
+  - cbn [valid_text] in H. change ESCAPE with ESC in H. cbn [code_text].
+    destruct (N.eqb_spec s ESC); [contradiction|].
+    apply andb_true_iff in H. destruct H as [H1 H2]. apply N.ltb_lt in H1.
+    cbn [ta_septets]. rewrite IH by exact H2. destruct (g7_table_inv s H1 Hs) as [_ ->]. reflexivity.
+  - discriminate H.
+  - cbn [valid_text] in H. change (ESC =? ESCAPE) with true in H. cbn iota in H.
+    destruct (ext_lookup x gsm_extension) as [c|] eqn:E; [|discriminate].
+    cbn [code_text]. change (ESC =? ESC) with true. cbn iota. rewrite E.
+    cbn [ta_septets]. rewrite IH by exact H. destruct (ext_facts x c E) as [_ [-> ->]]. reflexivity.
+Qed.
+
+Lemma code_text_nonempty ss : valid_text ss = true -> ss <> [] -> code_text ss <> [].
+Proof.
+  intros H Hne. destruct ss as [|s r]; [contradiction|]. cbn [code_text valid_text] in *. change ESCAPE with ESC in H.
+  destruct (N.eqb_spec s ESC).
+  - destruct r as [|x r']; [discriminate|]. destruct (ext_lookup x gsm_extension); [discriminate|discriminate H].
+  - discriminate.
+Qed.
+
+(* against the standard's tables: the characters are those of GSM 03.38 unless code 0x09 occurs (D16) *)
+Lemma alphabet_sweep :
+  forallb (fun s => (s =? 9) || (s =? ESC) || (g7_rune s =? gsm_char s)) septets128 = true.
+Proof. vm_compute. reflexivity. Qed.
+Lemma alphabet_table s : s < 128 -> s <> 9 -> s <> ESC -> g7_rune s = gsm_char s.
+Proof.
+  intros Hs H9 He. pose proof alphabet_sweep as H. rewrite forallb_forall in H. specialize (H s (septets128_spec s Hs)).
+  destruct (N.eqb_spec s 9); [contradiction|]. destruct (N.eqb_spec s ESC); [contradiction|].
+  cbn [orb] in H. apply N.eqb_eq in H. exact H.
+Qed.
+Lemma code_text_spec ss : valid_text ss = true -> ~ In 9 ss -> code_text ss = gsm_text ss.
+Proof.
+  induction ss as [|s r Hs IH| |x r IH] using text_ind; intros H H9.
+  - reflexivity.
+  - cbn [valid_text] in H. change ESCAPE with ESC in H. cbn [code_text gsm_text]. change ESCAPE with ESC.
+    destruct (N.eqb_spec s ESC); [contradiction|].
+    apply andb_true_iff in H. destruct H as [H1 H2]. apply N.ltb_lt in H1.
+    rewrite alphabet_table; [|exact H1|intros ->; apply H9; left; reflexivity|exact Hs].
+    rewrite IH; [reflexivity|exact H2|intros Hin; apply H9; right; exact Hin].
+  - reflexivity.
+  - cbn [valid_text] in H. change (ESC =? ESCAPE) with true in H. cbn iota in H.
+    destruct (ext_lookup x gsm_extension) as [c|] eqn:E; [|discriminate].
+    cbn [code_text gsm_text]. change (ESC =? ESC) with true. change (ESC =? ESCAPE) with true. cbn iota. rewrite E.
+    rewrite IH; [reflexivity|exact H|intros Hin; apply H9; right; right; exact Hin].
+Qed.
+
+(* the decoder drops a final CR of 8k septets as the filler *)
+Definition ends_in_filler_cr (ss : list N) : Prop :=
+  ss <> [] /\ (List.length ss mod 8 = 0)%nat /\ last ss 0 = CR.
 
 Lemma le_octets_length n v : List.length (le_octets n v) = n.
 Proof. revert v; induction n as [|n IH]; intros v; cbn [le_octets List.length]; [reflexivity|rewrite IH; reflexivity]. Qed.
 Lemma pack7_length ss : List.length (pack7 ss) = packed_len (List.length ss).
 Proof. unfold pack7. apply le_octets_length. Qed.
 
-(* Packed.NewDecoder().Bytes on the spec packing of a plain text gives its runes; the encoder gives the packing back *)
-Theorem ta_decode_pack7 ss : plain ss -> (List.length ss mod 8 <> 7)%nat -> ta_decode g7_table (pack7 ss) = Ok (map g7_rune ss).
+(* Packed.NewDecoder().Bytes on the spec packing of a text gives its characters; the encoder gives the packing back *)
+Theorem ta_decode_pack7 ss : valid_text ss = true -> (List.length ss mod 8 <> 7)%nat -> ~ ends_in_filler_cr ss ->
+  ta_decode g7_table (pack7 ss) = Ok (code_text ss).
 Proof.
-  intros Hp Hn. destruct ss as [|s r]; [reflexivity|].
+  intros Hp Hn Hcr. destruct ss as [|s r]; [reflexivity|].
   unfold ta_decode. destruct (pack7 (s :: r)) as [|b x] eqn:E.
   { apply (f_equal (@List.length N)) in E. rewrite pack7_length in E. unfold packed_len in E. cbn [List.length] in E. lia. }
-  rewrite <- E. rewrite unpack_pack7 by (try apply plain_septets; assumption).
-  rewrite ta_runes_plain by exact Hp. cbn [obind]. rewrite (plain_last _ Hp). rewrite !andb_false_r. reflexivity.
+  rewrite <- E. rewrite unpack_pack7 by (try apply valid_text_septets; assumption).
+  rewrite ta_runes_text by exact Hp. cbn [obind].
+  match goal with |- (if ?c then _ else _) = _ => destruct c eqn:Ec end; [|reflexivity].
+  exfalso. apply Hcr. apply andb_true_iff in Ec. destruct Ec as [Ec E3]. apply andb_true_iff in Ec. destruct Ec as [E1 E2].
+  split; [discriminate|]. split; [apply Nat.eqb_eq; exact E2|apply N.eqb_eq; exact E3].
 Qed.
 
-Theorem ta_encode_runes ss : plain ss -> ss <> [] -> (List.length ss mod 8 <> 7)%nat ->
-  ta_encode g7_table (map g7_rune ss) = pack7 ss.
+Theorem ta_encode_text ss : valid_text ss = true -> ss <> [] -> (List.length ss mod 8 <> 7)%nat ->
+  ta_encode g7_table (code_text ss) = pack7 ss.
 Proof.
-  intros Hp Hne Hn. unfold ta_encode. destruct ss as [|s r]; [contradiction|].
-  cbn [map]. change (g7_rune s :: map g7_rune r) with (map g7_rune (s :: r)).
-  rewrite ta_septets_plain by exact Hp. apply pack_is_pack7; [apply plain_septets; exact Hp|exact Hn].
+  intros Hp Hne Hn. unfold ta_encode. pose proof (code_text_nonempty ss Hp Hne) as Hc.
+  destruct (code_text ss) as [|c x] eqn:E; [contradiction|]. rewrite <- E.
+  rewrite ta_septets_text by exact Hp. apply pack_is_pack7; [apply valid_text_septets; exact Hp|exact Hn].
 Qed.
